@@ -38,6 +38,8 @@ pub enum ConnectionError {
     MqttState(#[from] StateError),
     #[error("Timeout")]
     Timeout(#[from] Elapsed),
+    #[error("Flush timeout")]
+    FlushTimeout,
     #[cfg(feature = "websocket")]
     #[error("Websocket: {0}")]
     Websocket(#[from] async_tungstenite::tungstenite::error::Error),
@@ -196,6 +198,7 @@ impl EventLoop {
         }
 
         let mut no_sleep = Box::pin(time::sleep(Duration::ZERO));
+        let network_timeout = Duration::from_secs(self.options.connection_timeout());
 
         // this loop is necessary since self.incoming.pop_front() might return None. In that case,
         // instead of returning a None event, we try again.
@@ -237,7 +240,10 @@ impl EventLoop {
                     if let Some(outgoing) = self.state.handle_outgoing_packet(request)? {
                         network.write(outgoing).await?;
                     }
-                    network.flush().await?;
+                    match time::timeout(network_timeout, network.flush()).await {
+                        Ok(inner) => inner?,
+                        Err(_) => return Err(ConnectionError::FlushTimeout),
+                    };
                     Ok(self.state.events.pop_front().unwrap())
                 }
                 Err(_) => Err(ConnectionError::RequestsDone),
@@ -246,7 +252,10 @@ impl EventLoop {
             o = network.readb(&mut self.state) => {
                 o?;
                 // flush all the acks and return first incoming packet
-                network.flush().await?;
+                match time::timeout(network_timeout, network.flush()).await {
+                    Ok(inner) => inner?,
+                    Err(_) => return Err(ConnectionError::FlushTimeout),
+                };
                 Ok(self.state.events.pop_front().unwrap())
             },
             // We generate pings irrespective of network activity. This keeps the ping logic
@@ -259,7 +268,10 @@ impl EventLoop {
                 if let Some(outgoing) = self.state.handle_outgoing_packet(Request::PingReq)? {
                     network.write(outgoing).await?;
                 }
-                network.flush().await?;
+                match time::timeout(network_timeout, network.flush()).await {
+                    Ok(inner) => inner?,
+                    Err(_) => return Err(ConnectionError::FlushTimeout),
+                };
                 Ok(self.state.events.pop_front().unwrap())
             }
         }
